@@ -287,6 +287,14 @@ let () =
                  if bd <> sd && not panicked then report_spec ~prop:"C15" ~pred:"zst_drops_like_std" ~detail:(bd ^ "_vs_std_" ^ sd)
                | _ -> ())
             | _ -> ())
+         | 'Q' ->
+           (* conversions / collect_in against std: Q name .. | same-or-what-bumpalo-gave | std *)
+           let secs = List.map String.trim (String.split_on_char '|' line) in
+           (match secs with
+            | [name; b; _] ->
+              hid := "conversions"; opno := 0; header := ""; cur := name; bump_count "conversion_cases";
+              if b <> "same" then report_spec ~prop:"C13" ~pred:"conversions_like_std" ~detail:(String.map (fun c -> if c = ' ' then '_' else c) (name ^ ":" ^ b))
+            | _ -> ())
          | 'R' ->
            (* C18 growth probes: R name es=.. .. reallocs|moved=<k> bound=<b> *)
            let kv = List.filter_map (fun it -> match String.index_opt it '=' with
